@@ -806,6 +806,31 @@ def p_size_children(ctx):
     ctx.features.add("inherit")
 
 
+def p_plain_chain(ctx):
+    """a depth-2/3 chain in which every level declares fields of its own, with unsized payloads and
+    nothing after them: the ancestors' fields must come root first in every builder, and no recorded
+    builder defect of any backend applies to it"""
+    rng = ctx.rng
+
+    def flds(n):
+        return [A.scalar(ctx.fid(), rng.choice([8, 16, 24, 32])) for _ in range(n)]
+    k0 = ctx.fid()
+    base = ctx.uid("R")
+    ctx.decls.append(A.packet(base, [A.scalar(k0, 8)] + flds(rng.randint(1, 2)) + [A.payload()]))
+    k1 = ctx.fid()
+    mid = ctx.uid("C")
+    ctx.decls.append(A.packet(mid, [A.scalar(k1, 8)] + flds(rng.randint(1, 2)) + [A.payload()], parent_id=base,
+                              constraints=[A.constraint(k0, value=rng.randint(0, 255))]))
+    k2 = ctx.fid()
+    v = rng.sample(range(256), 2)
+    ctx.decls.append(A.packet(ctx.uid("C"), flds(rng.randint(1, 3)), parent_id=mid, constraints=[A.constraint(k1, value=v[0])]))
+    low = ctx.uid("C")
+    ctx.decls.append(A.packet(low, [A.scalar(k2, 8)] + flds(1) + [A.payload()], parent_id=mid,
+                              constraints=[A.constraint(k1, value=v[1])]))
+    ctx.decls.append(A.packet(ctx.uid("C"), flds(2), parent_id=low, constraints=[A.constraint(k2, value=rng.randint(0, 255))]))
+    ctx.features.add("inherit")
+
+
 def p_alias_chain(ctx):
     """payload-only intermediates ("aliases") that carry a constraint of their own, with leaves below
     two different aliases constraining the same field to the same value: only the alias's constraint
@@ -1164,7 +1189,7 @@ MATRIX_PARTS = 6
 
 PROFILE_FN = {
     "bitfield": p_bitfield, "array": p_array, "payload": p_payload, "optional": p_optional,
-    "inherit": lambda c: (p_inherit(c), p_size_children(c), p_alias_chain(c)),
+    "inherit": lambda c: (p_inherit(c), p_size_children(c), p_alias_chain(c), p_plain_chain(c)),
     "enum": p_enum, "groups": p_groups, "small": p_small, "mix": p_mix, "structs": p_structs,
     "hostile": p_hostile, "matrix": p_matrix,
 }
